@@ -109,12 +109,34 @@ Print Assumptions C05_extend_closure.
 (* ---- duplicate_name_allowed = False --------------------------------------------------------- *)
 
 (* an accepted call leaves all names distinct (given a start tree with distinct names) *)
-Theorem C05_no_dup_names : forall t tsep path sep na t' p,
+Theorem C05_no_dup_distinct : forall t tsep path sep na t' p,
   NoDup (names t) ->
   add_path_to_tree t tsep path sep false na = (t', Ret p) ->
   NoDup (names t').
 Proof. exact add_path_false_names. Qed.
+Print Assumptions C05_no_dup_distinct.
+
+(* ... and it produces exactly the tree (and returns the node) the permissive call produces.
+   Guard (sep_safe for the tree's own separator): it is one character c that occurs in no node name
+   and in no component of the path, so that the code's comparison of joined path strings identifies
+   nodes.  Together: the call either raises or yields the same tree with all names distinct. *)
+Theorem C05_no_dup_names : forall c t path sep na t' p,
+  NoDup (names t) -> clean c t -> (forall x, In x (branch_of path sep) -> ~ In c x) ->
+  add_path_to_tree t [c] path sep false na = (t', Ret p) ->
+  add_path_to_tree t [c] path sep true na = (t', Ret p) /\ NoDup (names t').
+Proof.
+  intros c t path sep na t' p Hn Hc Hb H. split.
+  - exact (add_path_false_true c t path sep na t' p Hn Hc Hb H).
+  - exact (add_path_false_names t [c] path sep na t' p Hn H).
+Qed.
 Print Assumptions C05_no_dup_names.
+
+Theorem C05_no_dup_rows_distinct : forall tsep sep rows t acc t' ps,
+  NoDup (names t) ->
+  add_rows t tsep sep false rows acc = (t', Ret ps) ->
+  NoDup (names t').
+Proof. exact add_rows_false_names. Qed.
+Print Assumptions C05_no_dup_rows_distinct.
 
 (* ---- non-vacuity and the known finding ------------------------------------------------------- *)
 
@@ -131,11 +153,14 @@ Example C05_add_path_nonvacuous :
 Proof. vm_compute. reflexivity. Qed.
 
 Example C05_no_dup_nonvacuous :
-  exists t' p, add_path_to_tree ex_tree ex_slash ex_path ex_slash false [] = (t', Ret p)
-               /\ NoDup (names ex_tree).
+  exists t' p, add_path_to_tree ex_tree [47%N] ex_path ex_slash false [] = (t', Ret p)
+               /\ NoDup (names ex_tree) /\ clean 47%N ex_tree
+               /\ (forall x, In x (branch_of ex_path ex_slash) -> ~ In 47%N x).
 Proof.
-  eexists. eexists. split; [vm_compute; reflexivity|].
-  repeat constructor; cbn; intuition discriminate.
+  eexists. eexists. split; [vm_compute; reflexivity|]. split; [|split].
+  - repeat constructor; cbn; intuition discriminate.
+  - intros x Hx. cbn in Hx. intuition (subst; cbn in *; intuition discriminate).
+  - intros x Hx. vm_compute in Hx. intuition (subst; cbn in *; intuition discriminate).
 Qed.
 
 (* fix F4: a/b on a tree holding a/xa/b is refused when duplicate names are disallowed *)
